@@ -348,6 +348,13 @@ Proof.
   - subst reason. simpl. rewrite H. reflexivity.
 Qed.
 
+Lemma send_prepared_not_open : forall c s, st s <> OPEN ->
+  step c s ESendPrepared = (s, [(now s, Raised ExDisconnected)]).
+Proof.
+  intros c s H. unfold step, handle, send_message, ifS, say, in_state.
+  destruct (st s); simpl; try reflexivity. congruence.
+Qed.
+
 Lemma send_message_not_open : forall c s, st s <> OPEN ->
   step c s ESendMessage = (s, [(now s, Raised ExDisconnected)]).
 Proof.
